@@ -236,3 +236,448 @@ fn balance_snapshot_record_keeps_the_output_it_describes() {
         }
     }
 }
+
+/// C19: on a chain without reorganisation the outputs the wallet lists as unspent are the ledger's spendable in-window outputs for
+/// its key — also at the edge of the window (an output of block b is refused once the tip has reached b + genesis_period) — scenario of
+/// an independent audit
+#[tokio::test]
+#[serial_test::serial]
+async fn wallet_lists_exactly_the_outputs_the_ledger_still_accepts() {
+    #[allow(unused_imports)] use crate::core::util::test::test_manager::test::TestManager;
+    #[allow(unused_imports)] use crate::core::consensus::slip::Slip;
+    #[allow(unused_imports)] use crate::core::consensus::slip::SlipType;
+    #[allow(unused_imports)] use crate::core::defs::Currency;
+    #[allow(unused_imports)] use crate::core::consensus::transaction::Transaction;
+    #[allow(unused_imports)] use crate::core::defs::SaitoPublicKey;
+    use crate::core::consensus::blockchain::AddBlockResult;
+    use crate::core::util::test::test_manager::test::create_timestamp;
+
+    // what the ledger holds for a key : unspent outputs that a transaction may still name as
+    // inputs (the retention rule of Transaction::validate : latest < block_id + genesis_period)
+    async fn ledger_spendable(t: &TestManager, public_key: SaitoPublicKey) -> (Currency, u64) {
+        let blockchain = t.blockchain_lock.read().await;
+        let latest_block_id = blockchain.get_latest_block_id();
+        let mut total: Currency = 0;
+        let mut count = 0;
+        for (key, spendable) in blockchain.utxoset.iter() {
+            let slip = Slip::parse_slip_from_utxokey(key).unwrap();
+            if *spendable
+                && slip.public_key == public_key
+                && slip.slip_type != SlipType::Bound
+                && slip.slip_type != SlipType::BlockStake
+                && latest_block_id < slip.block_id + blockchain.genesis_period
+            {
+                total += slip.amount;
+                count += 1;
+            }
+        }
+        (total, count)
+    }
+
+    let mut t = TestManager::default();
+    let my_public_key = { t.wallet_lock.read().await.public_key };
+    // block 1 pays the wallet's key two outputs of 1000 nolan
+    let start = create_timestamp() - 400 * 120_000;
+    t.initialize_with_timestamp(2, 1000, start).await;
+    let genesis_period = {
+        let blockchain = t.blockchain_lock.read().await;
+        blockchain.genesis_period
+    };
+    assert_eq!(genesis_period, 100);
+
+    // an honest chain without any reorganisation : every block carries one payment of 10 nolan
+    // from the wallet to itself, every other block a golden ticket. One 1000 nolan output of
+    // block 1 is never touched.
+    for target in [genesis_period, genesis_period + 1] {
+        loop {
+            let latest = t.get_latest_block().await;
+            if latest.id >= target {
+                break;
+            }
+            let block = t
+                .create_block(
+                    t.latest_block_hash,
+                    latest.timestamp + 120_000,
+                    1,
+                    10,
+                    0,
+                    latest.id % 2 == 1,
+                )
+                .await;
+            let result = t.add_block(block).await;
+            assert!(matches!(
+                result,
+                AddBlockResult::BlockAddedSuccessfully(_, true, _)
+            ));
+        }
+
+        let (ledger_total, ledger_count) = ledger_spendable(&t, my_public_key).await;
+        let wallet_lock = t.get_wallet_lock();
+        let wallet = wallet_lock.read().await;
+        assert!(wallet.pending_txs.is_empty());
+        let listed: Currency = wallet
+            .unspent_slips
+            .iter()
+            .map(|key| wallet.slips.get(key).unwrap().amount)
+            .sum();
+        assert_eq!(listed, wallet.get_available_balance());
+        let oldest = wallet
+            .unspent_slips
+            .iter()
+            .map(|key| wallet.slips.get(key).unwrap().block_id)
+            .min()
+            .unwrap();
+
+        if target == genesis_period {
+            // control : at block 100 the wallet and the ledger agree
+            assert_eq!(wallet.get_available_balance(), ledger_total);
+            assert_eq!(wallet.get_unspent_slip_count(), ledger_count);
+        } else {
+            if !(((wallet.get_available_balance(), wallet.get_unspent_slip_count())) == ((ledger_total, ledger_count))) { witness(format!("at block {} (genesis period {}, no reorganisation, nothing pending) the wallet lists {} unspent outputs with a balance of {} nolan, the oldest from block {}, while the ledger has {} spendable in-window outputs worth {} nolan for the same key : Transaction::validate refuses inputs of block {} since block {} (latest >= block_id + genesis_period), but remove_old_slips only drops outputs of blocks < latest - genesis_period, so the wallet counts 1000 nolan it cannot spend", target, genesis_period, wallet.get_unspent_slip_count(), wallet.get_available_balance(), oldest, ledger_count, ledger_total, oldest, oldest + genesis_period)); }
+        }
+    }
+}
+
+/// C19: transactions the wallet builds never spend more than they consume — a request whose amounts sum past u64::MAX is refused,
+/// not wrapped — scenario of an independent audit
+#[tokio::test]
+#[serial_test::serial]
+async fn payment_request_whose_amounts_overflow_is_refused() {
+    #[allow(unused_imports)] use crate::core::util::test::test_manager::test::TestManager;
+    #[allow(unused_imports)] use crate::core::defs::Currency;
+    #[allow(unused_imports)] use crate::core::consensus::transaction::Transaction;
+    #[allow(unused_imports)] use std::panic::AssertUnwindSafe;
+    let mut t = TestManager::default();
+    // block 1 pays the wallet's key one output of 1000 nolan
+    t.initialize(1, 1000).await;
+    let (latest_block_id, genesis_period) = {
+        let blockchain = t.blockchain_lock.read().await;
+        (blockchain.get_latest_block_id(), blockchain.genesis_period)
+    };
+    let key_a = TestManager::generate_random_public_key();
+    let key_b = TestManager::generate_random_public_key();
+    let wallet_lock = t.get_wallet_lock();
+    let wallet = wallet_lock.read().await.clone();
+    assert_eq!(wallet.get_available_balance(), 1000);
+
+    // control : payments the wallet cannot afford are refused
+    {
+        let mut control_wallet = wallet.clone();
+        let result = Transaction::create_with_multiple_payments(
+            &mut control_wallet,
+            vec![key_a, key_b],
+            vec![Currency::MAX - 5, 2],
+            0,
+            None,
+            latest_block_id,
+            genesis_period,
+        );
+        assert!(result.is_err());
+        assert_eq!(control_wallet.get_available_balance(), 1000);
+    }
+
+    // two payments whose sum wraps around to 1 nolan
+    let mut hostile_wallet = wallet.clone();
+    let outcome = std::panic::catch_unwind(std::panic::AssertUnwindSafe(|| {
+        Transaction::create_with_multiple_payments(
+            &mut hostile_wallet,
+            vec![key_a, key_b],
+            vec![Currency::MAX, 2],
+            0,
+            None,
+            latest_block_id,
+            genesis_period,
+        )
+    }));
+    match outcome {
+        Err(_) => panic!(
+            "Transaction::create_with_multiple_payments with payments [18446744073709551615, 2] from a wallet holding 1000 nolan panicked on the unchecked sum of the payments (overflow checks of this build) instead of refusing the request; where the checks are off (the release profile) the sum wraps to 1 nolan, passes the funds check, and the wallet builds a transaction that consumes 1000 nolan and pays out more than 18446744073709551615 nolan"
+        ),
+        Ok(Err(_)) => {}
+        Ok(Ok(tx)) => {
+            let consumed: u128 = tx.from.iter().map(|slip| slip.amount as u128).sum();
+            let spent: u128 = tx.to.iter().map(|slip| slip.amount as u128).sum();
+            if !(spent <= consumed) { witness(format!("Transaction::create_with_multiple_payments with payments [18446744073709551615, 2] from a wallet holding 1000 nolan : the sum of the payments wrapped to 1 nolan, passed the funds check, and the wallet built a transaction that consumes {} nolan and pays out {} nolan", consumed, spent)); }
+        }
+    }
+}
+
+/// C19: a payment that needs more than 255 inputs yields no transaction that spends more than it consumes and loses no output
+/// (known finding: the selection marks all outputs spent, add_from_slip silently drops the inputs beyond 255) — scenario of an
+/// independent audit
+#[tokio::test]
+#[serial_test::serial]
+async fn payment_needing_more_than_255_inputs_is_refused_or_exact() {
+    #[allow(unused_imports)] use crate::core::util::test::test_manager::test::TestManager;
+    #[allow(unused_imports)] use crate::core::defs::Currency;
+    #[allow(unused_imports)] use crate::core::consensus::transaction::Transaction;
+    let mut t = TestManager::default();
+    // block 1 pays the wallet's key 300 outputs of 10 nolan each
+    t.initialize(300, 10).await;
+    let to_public_key = TestManager::generate_random_public_key();
+    let (latest_block_id, genesis_period) = {
+        let blockchain = t.blockchain_lock.read().await;
+        (blockchain.get_latest_block_id(), blockchain.genesis_period)
+    };
+    let wallet_lock = t.get_wallet_lock();
+
+    // setup sanity : the wallet lists 300 unspent outputs worth 3000 nolan, all of them in the ledger
+    {
+        let wallet = wallet_lock.read().await;
+        let blockchain = t.blockchain_lock.read().await;
+        assert_eq!(wallet.get_unspent_slip_count(), 300);
+        assert_eq!(wallet.get_available_balance(), 3000);
+        let listed: Currency = wallet
+            .unspent_slips
+            .iter()
+            .map(|key| wallet.slips.get(key).unwrap().amount)
+            .sum();
+        assert_eq!(listed, 3000);
+        assert!(wallet
+            .unspent_slips
+            .iter()
+            .all(|key| blockchain.utxoset.get(key) == Some(&true)));
+    }
+
+    // control : a payment that needs exactly 255 inputs (2550 nolan) is built correctly and validates
+    {
+        let mut control_wallet = wallet_lock.read().await.clone();
+        let mut tx = Transaction::create(
+            &mut control_wallet,
+            to_public_key,
+            2550,
+            0,
+            false,
+            None,
+            latest_block_id,
+            genesis_period,
+        )
+        .unwrap();
+        tx.generate(&control_wallet.public_key, 0, 0);
+        tx.sign(&control_wallet.private_key);
+        let consumed: Currency = tx.from.iter().map(|slip| slip.amount).sum();
+        let spent: Currency = tx.to.iter().map(|slip| slip.amount).sum();
+        assert_eq!(tx.from.len(), 255);
+        assert_eq!(consumed, 2550);
+        assert_eq!(spent, 2550);
+        let blockchain = t.blockchain_lock.read().await;
+        assert!(tx.validate(&blockchain.utxoset, &blockchain, true));
+    }
+
+    // the wallet can afford 3000 nolan, but that takes 300 inputs
+    let mut wallet = wallet_lock.write().await;
+    let mut tx = Transaction::create(
+        &mut wallet,
+        to_public_key,
+        3000,
+        0,
+        false,
+        None,
+        latest_block_id,
+        genesis_period,
+    )
+    .unwrap();
+    tx.generate(&wallet.public_key, 0, 0);
+    tx.sign(&wallet.private_key);
+
+    let consumed: Currency = tx.from.iter().map(|slip| slip.amount).sum();
+    let spent: Currency = tx.to.iter().map(|slip| slip.amount).sum();
+    let valid = {
+        let blockchain = t.blockchain_lock.read().await;
+        tx.validate(&blockchain.utxoset, &blockchain, true)
+    };
+    if !(spent <= consumed && valid) { witness(format!("Transaction::create for a payment of 3000 nolan from a wallet holding 300 outputs of 10 nolan returned a transaction with {} inputs worth {} nolan and outputs worth {} nolan (validates against the ledger : {}) while the wallet now lists {} unspent outputs / balance {} : generate_slips took all 300 outputs out of the wallet, Transaction::add_from_slip silently dropped the 45 inputs beyond 255, so the transaction the wallet built spends more than it consumes and 450 nolan of ledger-spendable outputs are neither in the transaction nor in the wallet", tx.from.len(), consumed, spent, valid, wallet.get_unspent_slip_count(), wallet.get_available_balance())); }
+}
+
+/// C19: transactions the wallet builds never reference the same output twice — also the NFT-creating one, whose named input must
+/// leave the spendable set before the rest of the funding is selected (known finding) — scenario of an independent audit
+#[tokio::test]
+#[serial_test::serial]
+async fn nft_creation_never_names_the_same_output_twice() {
+    #[allow(unused_imports)] use crate::core::util::test::test_manager::test::TestManager;
+    #[allow(unused_imports)] use crate::core::consensus::slip::Slip;
+    let mut t = TestManager::default();
+    let my_public_key = { t.wallet_lock.read().await.public_key };
+    // block 1 pays the wallet's key one output of 100 nolan and one of 1000 nolan
+    t.initialize_from_slips(vec![
+        Slip {
+            public_key: my_public_key,
+            amount: 100,
+            ..Slip::default()
+        },
+        Slip {
+            public_key: my_public_key,
+            amount: 1000,
+            ..Slip::default()
+        },
+    ])
+    .await;
+    let (latest_block_id, genesis_period) = {
+        let blockchain = t.blockchain_lock.read().await;
+        (blockchain.get_latest_block_id(), blockchain.genesis_period)
+    };
+    let recipient = TestManager::generate_random_public_key();
+    let wallet_lock = t.get_wallet_lock();
+    let mut wallet = wallet_lock.write().await;
+
+    assert_eq!(wallet.get_unspent_slip_count(), 2);
+    assert_eq!(wallet.get_available_balance(), 1100);
+    let small = wallet
+        .slips
+        .values()
+        .find(|slip| slip.amount == 100)
+        .unwrap()
+        .clone();
+    {
+        let blockchain = t.blockchain_lock.read().await;
+        assert_eq!(blockchain.utxoset.get(&small.utxokey), Some(&true));
+    }
+
+    // control : the 100 nolan output covers a deposit of 60 nolan on its own : one input, named once
+    {
+        let mut control_wallet = wallet.clone();
+        let tx = control_wallet
+            .create_bound_transaction(
+                small.amount,
+                small.block_id,
+                small.tx_ordinal,
+                small.slip_index as u64,
+                60,
+                vec![],
+                &recipient,
+                None,
+                latest_block_id,
+                genesis_period,
+                "demo".to_string(),
+            )
+            .await
+            .unwrap();
+        assert_eq!(tx.from.len(), 1);
+        assert_eq!(tx.from[0].get_utxoset_key(), small.utxokey);
+    }
+
+    // mint an NFT from the 100 nolan output with a deposit of 150 nolan : 50 nolan more are needed
+    let mut tx = wallet
+        .create_bound_transaction(
+            small.amount,
+            small.block_id,
+            small.tx_ordinal,
+            small.slip_index as u64,
+            150,
+            vec![],
+            &recipient,
+            None,
+            latest_block_id,
+            genesis_period,
+            "demo".to_string(),
+        )
+        .await
+        .unwrap();
+    tx.generate(&my_public_key, 0, 0);
+
+    let keys: Vec<SaitoUTXOSetKey> = tx.from.iter().map(|slip| slip.get_utxoset_key()).collect();
+    let distinct: AHashSet<SaitoUTXOSetKey> = keys.iter().cloned().collect();
+    let valid = {
+        let blockchain = t.blockchain_lock.read().await;
+        tx.validate(&blockchain.utxoset, &blockchain, true)
+    };
+    if !((distinct.len()) == (keys.len())) { witness(format!("create_bound_transaction (mint from the 100 nolan output of block {} tx {} with a deposit of 150 nolan) returned a transaction with {} inputs of which only {} are distinct outputs, total_in {} / total_out {}, validates against the ledger : {} : the named input is left in unspent_slips, so generate_slips picked the very same 100 nolan output again to cover the missing 50 nolan, and the transaction the wallet built references one output twice", small.block_id, small.tx_ordinal, keys.len(), distinct.len(), tx.total_in, tx.total_out, valid)); }
+}
+
+/// C19: an output the wallet has committed to a pending NFT transaction is not listed as unspent and not handed to the next
+/// transaction (known finding, same cause) — scenario of an independent audit
+#[tokio::test]
+#[serial_test::serial]
+async fn output_committed_to_an_nft_transaction_is_not_handed_out_again() {
+    #[allow(unused_imports)] use crate::core::util::test::test_manager::test::TestManager;
+    #[allow(unused_imports)] use crate::core::consensus::slip::Slip;
+    #[allow(unused_imports)] use crate::core::consensus::transaction::Transaction;
+    let mut t = TestManager::default();
+    let my_public_key = { t.wallet_lock.read().await.public_key };
+    t.initialize_from_slips(vec![
+        Slip {
+            public_key: my_public_key,
+            amount: 100,
+            ..Slip::default()
+        },
+        Slip {
+            public_key: my_public_key,
+            amount: 1000,
+            ..Slip::default()
+        },
+    ])
+    .await;
+    let (latest_block_id, genesis_period) = {
+        let blockchain = t.blockchain_lock.read().await;
+        (blockchain.get_latest_block_id(), blockchain.genesis_period)
+    };
+    let recipient = TestManager::generate_random_public_key();
+    let wallet_lock = t.get_wallet_lock();
+    let mut wallet = wallet_lock.write().await;
+    assert_eq!(wallet.get_available_balance(), 1100);
+    let small = wallet
+        .slips
+        .values()
+        .find(|slip| slip.amount == 100)
+        .unwrap()
+        .clone();
+
+    // control : an ordinary payment takes its input out of the unspent list
+    {
+        let mut control_wallet = wallet.clone();
+        let tx = Transaction::create(
+            &mut control_wallet,
+            recipient,
+            60,
+            0,
+            false,
+            None,
+            latest_block_id,
+            genesis_period,
+        )
+        .unwrap();
+        assert_eq!(tx.from[0].get_utxoset_key(), small.utxokey);
+        assert!(!control_wallet.unspent_slips.contains(&small.utxokey));
+        assert_eq!(control_wallet.get_available_balance(), 1000);
+    }
+
+    // first transaction : mint an NFT from the 100 nolan output (deposit 60, change 40)
+    let nft_tx = wallet
+        .create_bound_transaction(
+            small.amount,
+            small.block_id,
+            small.tx_ordinal,
+            small.slip_index as u64,
+            60,
+            vec![],
+            &recipient,
+            None,
+            latest_block_id,
+            genesis_period,
+            "demo".to_string(),
+        )
+        .await
+        .unwrap();
+    assert_eq!(nft_tx.from.len(), 1);
+    assert_eq!(nft_tx.from[0].get_utxoset_key(), small.utxokey);
+    wallet.add_to_pending(nft_tx.clone());
+
+    // second transaction : an ordinary payment of 60 nolan
+    let payment_tx = Transaction::create(
+        &mut wallet,
+        recipient,
+        60,
+        0,
+        false,
+        None,
+        latest_block_id,
+        genesis_period,
+    )
+    .unwrap();
+
+    let reused = payment_tx
+        .from
+        .iter()
+        .any(|slip| slip.get_utxoset_key() == small.utxokey);
+    if !(!reused) { witness(format!("after create_bound_transaction committed the 100 nolan output of block {} tx {} to a pending NFT transaction the wallet still reported balance 1100 with that output listed as unspent, and the next Transaction::create (payment of 60 nolan) used the same output as its input : two transactions built by the wallet spend one output, only one of them can ever be accepted by the ledger", small.block_id, small.tx_ordinal)); }
+}
